@@ -178,7 +178,7 @@ static void mkobj(int idx, int sub, int flags, int type, int *a, int na) {
         s->Start[na] = 0; o->Data = (CO_DATA)s; odx[slot].aux = s; add_blk(idx, sub, s->Start, na, 0, slot);
     } else if (type == T_HBCONS && sub > 0) {
         CO_HBCONS *h = (CO_HBCONS *)exact(sizeof *h); memset(h, 0, sizeof *h);
-        h->Time = na > 0 ? (uint16_t)a[0] : 0; h->NodeId = na > 1 ? (uint8_t)a[1] : 0; h->Tmr = -1;
+        h->Time = na > 0 ? (uint16_t)a[0] : 0; h->NodeId = na > 1 ? (uint8_t)a[1] : 0;   /* (zero-initialised like a static CO_HBCONS of an application: Tmr = 0, not -1) */
         o->Data = (CO_DATA)h; odx[slot].aux = h;
     } else if ((type == T_PSTORE || type == T_PRESTORE) && sub > 0) {
         int g = na > 0 ? a[0] : 0; o->Data = (CO_DATA)&para[g]; odx[slot].aux = &para[g];
@@ -292,7 +292,7 @@ static void restart(void) {
     /* power cycle: RAM back to initial image, NVM kept */
     for (int i = 0; i < nblk; i++) { memcpy(blk[i].p, blk[i].init, blk[i].len); memcpy(blk[i].shadow, blk[i].init, blk[i].len); }
     for (int i = 0; i < nod; i++) {
-        if (odx[i].type == T_HBCONS && odx[i].aux) { CO_HBCONS *h = odx[i].aux; h->Next = 0; h->Tmr = -1; h->Event = 0; h->State = CO_INVALID; }
+        if (odx[i].type == T_HBCONS && odx[i].aux) { CO_HBCONS *h = odx[i].aux; h->Next = 0; h->Tmr = 0; h->Event = 0; h->State = CO_INVALID; }
         if (odx[i].type == T_DOM) ((CO_OBJ_DOM *)odx[i].aux)->Offset = 0;
         if (odx[i].type == T_STR) ((CO_OBJ_STR *)odx[i].aux)->Offset = 0;
     }
